@@ -1042,6 +1042,48 @@ impl World {
     }
 }
 
+/// static type of a source expression (modifiers included), found with the built-in `assert_type<T>(e)`, which
+/// compares type ids exactly.  Returns the class the enum model needs: `bool|int|uint|lit|enum<id>:<under>|other`, with
+/// a trailing `!` when the type is not the plain type of a literal of that value (const-qualified, or an enum).
+pub fn static_cls(w: &World, src: &str, x: &X) -> Option<String> {
+    let accepts = |ty: &str| -> bool {
+        let text = format!("{}void t() {{ assert_type<{}>({}); }}\n", PRELUDE, ty, src);
+        matches!(guard(|| front_end_src(&text)), Ok(Ok(_)))
+    };
+    const NAMED: &[(&str, &str)] = &[
+        ("int", "int"), ("uint", "uint"), ("bool", "bool"), ("E0", "enum0:int"), ("E1", "enum1:uint"), ("NS::EN", "enum2:int"),
+        ("float", "other"), ("half", "other"), ("double", "other"),
+    ];
+    for (ty, cls) in NAMED {
+        if accepts(ty) {
+            return Some(if cls.starts_with("enum") { format!("{}!", cls) } else { cls.to_string() });
+        }
+        if accepts(&format!("const {}", ty)) {
+            return Some(if *cls == "other" { cls.to_string() } else { format!("{}!", cls) });
+        }
+    }
+    // the literal types have no name
+    match reference(x) {
+        Want::Val(K::Lit(_)) | Want::ValOrNotConst(K::Lit(_)) => Some("lit".into()),
+        Want::Val(K::FLit(_)) => Some("other".into()),
+        _ => match x {
+            X::Lit(K::Lit(_)) => Some("lit".into()),
+            X::Op(_, _) | X::Cast(_, _) => {
+                // an operator on literals that has no value (1 / 0, 1 << 200): the operands tell
+                fn lit_typed(x: &X) -> bool {
+                    match x {
+                        X::Lit(K::Lit(_)) => true,
+                        X::Op(o, a) => !CMP_OPS.contains(&o.as_str()) && !a.is_empty() && a.iter().all(lit_typed),
+                        _ => false,
+                    }
+                }
+                if lit_typed(x) { Some("lit".into()) } else { None }
+            }
+            _ => None,
+        },
+    }
+}
+
 fn count_nodes(x: &X, hist: &mut Hist) -> (u32, u32) {
     // (nodes, depth)
     match x {
@@ -1176,6 +1218,7 @@ pub fn err_kind(e: &str) -> String {
     // "reject:type:<text>" -> a short stable label
     let t = e.splitn(3, ':').nth(2).unwrap_or(e);
     let t = t.split(": error: ").nth(1).unwrap_or(t);
+    let t = t.strip_prefix("error: ").unwrap_or(t);
     let words: Vec<&str> = t.split_whitespace().take(5).collect();
     words.join(" ").chars().filter(|c| c.is_ascii_alphabetic() || *c == ' ').collect()
 }
@@ -1276,7 +1319,18 @@ fn run_position(w: &World, pos: &str, src: &str, out: &mut Out, hist: &mut Hist)
             return;
         }
     };
-    let (obs, _) = pos::observe(site, src);
+    let (obs, module) = pos::observe(site, src);
+    // what the model of the position is given: the IR of the expression the position evaluates
+    let aux: Option<String> = match pos::model_input(site) {
+        pos::ModelInput::Hole => Some(show_x(&x)),
+        pos::ModelInput::EnumMember => static_cls(w, src, &x).map(|c| format!("{} {}", c, show_x(&x))),
+        pos::ModelInput::Initialiser => module.as_ref().and_then(|m| pos::initialiser_tree(m, &site.look)).map(|t| show_x(&t)),
+        pos::ModelInput::None => None,
+    };
+    let req = match &aux {
+        Some(a) => format!("{}\t{}", req, a),
+        None => req,
+    };
     let want_of = |e: &str| -> Option<Want> { w.typed(e).ok().map(|(m, e)| reference(&x_of_expr(&m, &e))) };
     let mut verdict = pos::judge_site(site, src, &want, &want_of, &obs);
     hist.add(&format!("{}:{}", pos, obs.split(':').next().unwrap_or("")));
@@ -1296,13 +1350,41 @@ fn run_enum(w: &World, members: &str, out: &mut Out, hist: &mut Hist) {
     let ms: Vec<String> = members.split(" ; ").map(|s| s.trim().to_string()).collect();
     let obs = pos::observe_enum(&ms);
     let want_of = |e: &str| -> Option<Want> { w.typed(e).ok().map(|(m, e)| reference(&x_of_expr(&m, &e))) };
-    let verdict = pos::judge_enum(&ms, &want_of, &obs);
+    let mut standalone = Vec::new();
+    let verdict = pos::judge_enum(&ms, &want_of, &obs, &mut standalone);
+    // input of the Lean model of the definition: per enumerator `-` or `<static type class> <earlier enumerators it
+    // refers to> <IR>` (earlier enumerators appear in the IR as the literals the type checker inlines)
+    let mut aux = Vec::new();
+    if standalone.len() == ms.len() {
+        for (m, sa) in ms.iter().zip(&standalone) {
+            if sa == "-" {
+                aux.push("-".to_string());
+                continue;
+            }
+            let refs: Vec<String> = (0..ms.len()).filter(|k| m.contains(&format!("${}", k))).map(|k| k.to_string()).collect();
+            match w.typed(sa) {
+                Ok((md, e)) => {
+                    let x = x_of_expr(&md, &e);
+                    match static_cls(w, sa, &x) {
+                        Some(cls) => aux.push(format!("{} {} {}", cls, if refs.is_empty() { "-".to_string() } else { refs.join(",") }, show_x(&x))),
+                        None => break,
+                    }
+                }
+                Err(_) => break,
+            }
+        }
+    }
+    let req = if aux.len() == ms.len() {
+        format!("C13.enum\t{}\t{}", ms.join(" ; "), aux.join(" | "))
+    } else {
+        format!("C13.enum\t{}", ms.join(" ; "))
+    };
     hist.add(&format!("enum:{}", obs.split(|c| c == ':' || c == ' ').take(2).collect::<Vec<_>>().join(":")));
     hist.add(&format!("enum-members:{}", ms.len()));
     hist.add(&format!("enum-implicit:{}", ms.iter().filter(|m| *m == "-").count()));
     hist.add(&format!("enum-references:{}", ms.iter().filter(|m| m.contains('$')).count()));
     let shown = if obs.starts_with("panic:") { format!("panic:{}", panic_msg(&obs[6..])) } else { obs.clone() };
-    out.case(&format!("C13.enum\t{}", ms.join(" ; ")), &shown, &verdict);
+    out.case(&req, &shown, &verdict);
 }
 
 /// members of a random enum definition
